@@ -54,7 +54,11 @@ class C19(Harness):
     def make_world(self, kind, cell):
         W = self.__dict__.get("_W")
         if W is None:
-            W = worlds.make_conc_world(register=True)
+            import functools
+
+            # the real functools (elsewhere lru_cache is the identity decorator): a memoised look-up in the
+            # benchmarking code is state that survives between runs of one process, which is what resumption is about
+            W = worlds.make_conc_world({"functools": functools}, register=True)
             self._W = W
         return W
 
